@@ -14,19 +14,27 @@ dialect neovm
 // notification, state-changing call) the formula holds; `safe` methods never change state.
 // alphabet() = 2/3+1 multisig of the chain committee, cmtaddr() = its majority multisig.
 
+pure nkey(n Bytes) Bytes = "\x21" ++ ripemd160(n)
+pure rec(s Store, n Bytes) NameState = deser_NameState(s.get(nkey(n)))
+pure adminOK(n NameState) Bool = (len(n.Owner) == 0 && W(cmtaddr())) || (len(n.Owner) != 0 && W(n.Owner))
+                              || (len(n.Owner) != 0 && !isnil(n.Admin) && W(n.Admin))
 // the committee majority account as nns.checkCommittee computes it: l - (l-1)/2 == l/2 + 1 for l >= 1 (lemma below)
 witness Update [C03,C11,C16] : W(cmtaddr())
 witness SetPrice [C03,C11]   : W(cmtaddr())
 witness RegisterTLD [C03,C11]: W(cmtaddr())
 witness Register [C03,C11]   : W(owner)
-witness Renew [C03,C11]        : anyWitness
-witness RenewDefault [C03,C11] : anyWitness
-witness UpdateSOA [C03,C11]    : anyWitness
-witness SetAdmin [C03,C11]     : anyWitness
+// state-dependent requirements, read on the record stored for the name before the call: the committee for
+// committee-owned names, otherwise the owner or the appointed admin
+witness Renew [C03,C11]        : adminOK(rec(store, name))
+witness RenewDefault [C03,C11] : adminOK(rec(store, name))
+witness UpdateSOA [C03,C11]    : adminOK(rec(store, name))
+witness SetAdmin [C03,C11]     : W(rec(store, name).Owner) && (isnil(admin) || W(admin))
+witness Transfer [C03,C11]     : W(rec(store, tokenID).Owner)
+// the records of a sub-name live under the longest registered enclosing name, found by a loop: the sweep only
+// establishes that some witness was checked; the exact rule is proved by the functional contracts of module admin
 witness SetRecord [C03,C11]    : anyWitness
 witness AddRecord [C03,C11]    : anyWitness
 witness DeleteRecords [C03,C11]: anyWitness
-witness Transfer [C03,C11]     : anyWitness
 safe Symbol [C03]
 safe Decimals [C03]
 safe Version [C03]
